@@ -64,6 +64,27 @@
 //!     0 ms (prepare and commit; a quarter of the cases keeps the default commit timeout), so that a
 //!     sweep finds due whatever the configuration can make due; sweeps run before and after the
 //!     completion calls.
+//!   * locks are observed on the lock table itself (`lock_holder(key)` over the keys of the workload,
+//!     beside the lock manager's per-transaction index): a key whose holder is a completed transaction
+//!     is a lock left behind, whatever the index says. Re-delivery sends up to three PREPAREs with
+//!     different keys / shards per restored transaction (a transaction has one lock set per answered
+//!     PREPARE; none of these votes is recorded).
+//!
+//! Part "deadline" (own threads beside the main part; its cases mostly sleep): a log with 1-4
+//! transactions in every state (COMMIT decided by `recover()`, prepared, a no vote, collecting,
+//! completed, and optionally a `commit()` cut behind its decision record) is restarted; the restarted
+//! coordinator takes recovery calls, hands decisions out, gets PREPAREs again for restored
+//! transactions and runs 0-2 further transactions whose shards each answer PREPARE with their own
+//! keys (some twice; a third of the votes is still on its way). Then the deadlines pass — the
+//! configured one of the further transactions (0 / 20 ms) in the short cases, the fixed 5 s of
+//! restored transactions in the long ones — and a seeded sequence of recover() / sweeps / abort /
+//! complete_* / commit / get_pending_decisions / recover_from_wal follows. Judged: a decision that
+//! was handed out stays (never the opposite decision handed out, never timed out, no opposite
+//! completion accepted, no abort broadcast), the decided transaction can be driven to completion as
+//! decided — on this coordinator or, if left pending, after the next restart, where it must come back
+//! in its decided phase — completions of this coordinator stay final across the next restart, and
+//! every completion leaves none of the lock sets of the transaction behind, recorded vote or not.
+//! No verdict depends on the clock: it only decides which of these states a case meets (counted).
 
 use common::*;
 use serde_json::{json, Value};
@@ -524,6 +545,26 @@ fn votes_of(coord: &DistributedTxCoordinator, tx: u64) -> Option<(TxPhase, BTree
     Some((t.phase, m))
 }
 
+/// Key locks a transaction holds, observed on the lock table itself: what the reverse index of the
+/// lock manager lists for it, plus every key of the workload's key universe whose holder it is (a
+/// lock that the index has lost is still a lock: the key stays blocked for everybody else).
+fn keys_held_by(coord: &DistributedTxCoordinator, tx: u64) -> Vec<String> {
+    let lm = coord.lock_manager();
+    let mut held = lm.keys_for_transaction(tx);
+    let mut universe = vec!["g0".to_string()];
+    for s in 0..6 {
+        for k in 0..3 {
+            universe.push(format!("s{}:k{}", s, k));
+        }
+    }
+    for key in universe {
+        if lm.lock_holder(&key) == Some(tx) && !held.contains(&key) {
+            held.push(key);
+        }
+    }
+    held
+}
+
 struct Found {
     sig: String,
     detail: String,
@@ -547,6 +588,7 @@ fn recovery_script(
 ) -> bool {
     // decisions of the steps that were added later
     let mut xr = Rng::new(hash_combine(io.xseed, 0x5EDE_11));
+    let mut xr2 = Rng::new(hash_combine(io.xseed, 0x2E9E_A7));
     // where this incarnation starts appending (a torn tail is gone by now)
     let len0 = file_len(io.wal_path);
     let stats = match coord.recover_from_wal() {
@@ -780,6 +822,32 @@ fn recovery_script(
                 if coord.lock_manager().lock_count_for_transaction(tx) > 0 {
                     rep.count("redelivery:restored-tx-holds-fresh-locks", 1);
                 }
+                // a transaction has one lock set per PREPARE that was answered: every participant
+                // shard sends its own keys, and a shard that repeats its PREPARE may name other keys.
+                // None of these votes is recorded (the collection is over), so whichever call completes
+                // the transaction has to find all of these lock sets by itself.
+                let more = xr2.below(3);
+                for _ in 0..more {
+                    let shard2 = if t.participants.is_empty() || xr2.chance(1, 8) { 3 + xr2.below(3) } else { *xr2.pick(&t.participants) };
+                    let key = format!("s{}:k{}", shard2, xr2.below(3));
+                    let req = PrepareRequest {
+                        tx_id: tx,
+                        coordinator: "coord".to_string(),
+                        operations: vec![Transaction::Put { key, data: vec![4, 5, 6] }],
+                        delta_embedding: SparseVector::from_dense(&vec![0.0f32; DIM]),
+                        timeout_ms: 5000,
+                    };
+                    let vote = coord.handle_prepare(&req);
+                    let at = file_len(io.wal_path);
+                    let res = coord.record_vote(tx, shard2, vote);
+                    if file_len(io.wal_path) > at {
+                        io.votes_logged.push((at, res.is_ok()));
+                    }
+                    rep.count("redelivery:further-prepare-for-restored-tx", 1);
+                }
+                if keys_held_by(coord, tx).len() >= 2 {
+                    rep.count("redelivery:restored-tx-holds-several-fresh-lock-sets", 1);
+                }
             } else {
                 rep.count("redelivery:vote-for-tx-that-is-not-pending", 1);
                 match t.done() {
@@ -836,7 +904,7 @@ fn recovery_script(
                             // a timeout the sweeper reports is an abort it announces (the broadcast is queued)
                             done_now.push((tx, TxOutcome::Aborted, "cleanup_timeouts()"));
                         }
-                        let left = coord.lock_manager().keys_for_transaction(tx);
+                        let left = keys_held_by(coord, tx);
                         if !left.is_empty() {
                             out.push(Found {
                                 sig: "locks-left-after-completion:cleanup_timeouts()".into(),
@@ -953,7 +1021,7 @@ fn recovery_script(
                         if rng.below(4) == 0 {
                             if coord.abort(tx, "client abort after restart").is_ok() {
                                 done_now.push((tx, TxOutcome::Aborted, "abort()"));
-                                let left = coord.lock_manager().keys_for_transaction(tx);
+                                let left = keys_held_by(coord, tx);
                                 if !left.is_empty() {
                                     out.push(Found { sig: "locks-left-after-completion:abort()".into(), detail: format!("{} was aborted after the restart (abort() returned Ok) but still holds key locks {:?}", n, left) });
                                 }
@@ -988,8 +1056,8 @@ fn recovery_script(
                         sig: format!("voted-tx-not-completable:{:?}", cur.phase),
                         detail: format!("{} restored in phase {:?} could not be completed: {}", n, cur.phase, e),
                     });
-                } else if coord.lock_manager().lock_count_for_transaction(tx) != 0 {
-                    out.push(Found { sig: "locks-left-after-completion".into(), detail: format!("{} completed after restart but still holds locks", n) });
+                } else if !keys_held_by(coord, tx).is_empty() {
+                    out.push(Found { sig: "locks-left-after-completion".into(), detail: format!("{} completed after restart but still holds key locks {:?}", n, keys_held_by(coord, tx)) });
                 }
             }
             _ => {}
@@ -1084,7 +1152,7 @@ fn recovery_script(
         let completed = t.done().is_some() || done_now.iter().any(|(d, _, _)| *d == tx);
         if completed && coord.get(tx).is_none() {
             rep.count("checked:no-locks-of-completed-tx-at-end-of-script", 1);
-            let left = coord.lock_manager().keys_for_transaction(tx);
+            let left = keys_held_by(coord, tx);
             if !left.is_empty() {
                 out.push(Found {
                     sig: "locks-of-completed-tx-held:at-end-of-restart-script".into(),
@@ -1344,7 +1412,7 @@ fn workload(coord: &DistributedTxCoordinator, ch: &mut Chain, rng: &mut Rng, ext
                 if ok && epoch > 0 {
                     // "locks of completed transactions are released", on a restarted coordinator
                     rep.count("checked:no-locks-after-live-completion-on-restarted-coordinator", 1);
-                    let left = coord.lock_manager().keys_for_transaction(tx);
+                    let left = keys_held_by(coord, tx);
                     if !left.is_empty() {
                         out.push(Found {
                             sig: format!("locks-left-after-completion:{}():on-restarted-coordinator", name),
@@ -1394,7 +1462,7 @@ fn workload(coord: &DistributedTxCoordinator, ch: &mut Chain, rng: &mut Rng, ext
                 for tx in swept {
                     if epoch > 0 {
                         rep.count("checked:no-locks-after-live-completion-on-restarted-coordinator", 1);
-                        let left = coord.lock_manager().keys_for_transaction(tx);
+                        let left = keys_held_by(coord, tx);
                         if !left.is_empty() {
                             out.push(Found {
                                 sig: "locks-left-after-completion:cleanup_timeouts():on-restarted-coordinator".into(),
@@ -1504,7 +1572,7 @@ fn workload(coord: &DistributedTxCoordinator, ch: &mut Chain, rng: &mut Rng, ext
                     }
                 }
                 for tx in holding {
-                    let left = coord.lock_manager().keys_for_transaction(tx);
+                    let left = keys_held_by(coord, tx);
                     if coord.get(tx).is_none() && !left.is_empty() {
                         out.push(Found {
                             sig: format!("recovery-call-forgot-live-tx-and-left-its-locks:{}", name),
@@ -1784,6 +1852,519 @@ fn run_case(args: &Args, case_seed: u64, rep: &mut Report) {
     }
 }
 
+// ------------------------------------------------------------------------------------------------
+// part "deadline": decided transactions that outlive their deadline on a restarted coordinator, and
+// transactions that hold several lock sets (one per answered PREPARE) when they are completed
+// ------------------------------------------------------------------------------------------------
+
+/// what a restored transaction gets from the code (fresh start time + this timeout, not configurable)
+const RESTORED_DEADLINE_MS: u64 = 5_000;
+
+struct DeadlineCase<'a> {
+    names: Names,
+    /// first decision `get_pending_decisions()` of a restarted coordinator handed out per transaction
+    handed: BTreeMap<u64, TxPhase>,
+    /// completions the restarted coordinator announced (call returned Ok / sweeper returned the id)
+    done: BTreeMap<u64, (TxOutcome, &'static str)>,
+    /// keys the coordinator locked for a transaction when it answered a PREPARE with yes:
+    /// (key, was the vote of that answer recorded?)
+    asked: BTreeMap<u64, Vec<(String, bool)>>,
+    trace: Vec<String>,
+    found: Vec<Found>,
+    rep: &'a mut Report,
+}
+
+fn decision_name(p: TxPhase) -> &'static str {
+    if p == TxPhase::Committing { "COMMIT" } else { "ABORT" }
+}
+
+impl DeadlineCase<'_> {
+    fn push(&mut self, sig: String, detail: String) {
+        let d = format!("{} [calls so far: {}]", detail, self.trace.join(" "));
+        self.found.push(Found { sig, detail: d });
+    }
+    /// `get_pending_decisions()`: what the coordinator hands out for broadcast. The first decision
+    /// for a transaction is its announced outcome; a different one later reverses it.
+    fn note_decisions(&mut self, coord: &DistributedTxCoordinator) {
+        for (tx, ph) in coord.get_pending_decisions() {
+            match self.handed.get(&tx).copied() {
+                None => {
+                    self.handed.insert(tx, ph);
+                    self.rep.count(&format!("deadline:decision-handed-out:{}", decision_name(ph)), 1);
+                }
+                Some(prev) if prev != ph => {
+                    let n = self.names.n(tx);
+                    self.push(
+                        format!("handed-out-decision-reversed:{}-then-{}-handed-out", decision_name(prev), decision_name(ph)),
+                        format!("{}: get_pending_decisions() of the restarted coordinator handed {} out for it; a later get_pending_decisions() hands out {}", n, decision_name(prev), decision_name(ph)),
+                    );
+                }
+                _ => {}
+            }
+        }
+    }
+    /// decided transactions (decision handed out, completion outstanding) whose deadline is over
+    fn decided_past_deadline(&self, coord: &DistributedTxCoordinator, phase: TxPhase) -> (u64, u64) {
+        let (mut all, mut restored) = (0, 0);
+        for (&tx, &h) in &self.handed {
+            if h != phase || self.done.contains_key(&tx) {
+                continue;
+            }
+            if let Some(t) = coord.get(tx) {
+                if t.phase == phase && t.is_timed_out() {
+                    all += 1;
+                    if t.timeout_ms == RESTORED_DEADLINE_MS && t.coordinator == "recovered" {
+                        restored += 1;
+                    }
+                }
+            }
+        }
+        (all, restored)
+    }
+    /// the coordinator announced a completion of `tx`
+    fn completed(&mut self, coord: &DistributedTxCoordinator, tx: u64, outcome: TxOutcome, how: &'static str) {
+        let n = self.names.n(tx);
+        if let Some(h) = self.handed.get(&tx).copied() {
+            let against = (h == TxPhase::Committing) != (outcome == TxOutcome::Committed);
+            if against {
+                let what = match how {
+                    "cleanup_timeouts()" => "timed-out".to_string(),
+                    other => format!("{}-accepted", other.trim_end_matches("()")),
+                };
+                self.push(
+                    format!("handed-out-decision-reversed:{}-then-{}", decision_name(h), what),
+                    format!("{}: get_pending_decisions() of the restarted coordinator handed {} out for it; afterwards {} completed it as {:?}", n, decision_name(h), how, outcome),
+                );
+            } else {
+                self.rep.count("deadline:decided-tx-completed-as-decided", 1);
+            }
+        }
+        if let Some((prev, prev_how)) = self.done.get(&tx).copied() {
+            if prev != outcome {
+                self.push(
+                    format!("completed-outcome-reversed-on-restarted-coordinator:{:?}-then-{}", prev, how.trim_end_matches("()")),
+                    format!("{} was completed as {:?} by the restarted coordinator ({}); later {} completed it as {:?}", n, prev, prev_how, how, outcome),
+                );
+            }
+        } else {
+            self.done.insert(tx, (outcome, how));
+        }
+        // "locks of completed transactions are released": every key the coordinator locked for it
+        let sets = self.asked.get(&tx).cloned().unwrap_or_default();
+        let lm = coord.lock_manager();
+        let mut left: Vec<String> = sets.iter().filter(|(k, _)| lm.lock_holder(k) == Some(tx)).map(|(k, _)| k.clone()).collect();
+        for k in lm.keys_for_transaction(tx) {
+            if !left.contains(&k) {
+                left.push(k);
+            }
+        }
+        self.rep.count("deadline:checked:no-locks-after-completion", 1);
+        if sets.len() >= 2 {
+            self.rep.count("deadline:checked:no-locks-after-completion-of-tx-with-several-lock-sets", 1);
+            // an answer whose vote was not recorded, followed by a later answer
+            if sets.iter().rev().skip(1).any(|(_, recorded)| !recorded) {
+                self.rep.count("deadline:checked:completed-tx-had-earlier-lock-set-without-recorded-vote", 1);
+            }
+        }
+        if !left.is_empty() {
+            self.push(
+                format!("locks-left-after-completion:{}:on-restarted-coordinator", how),
+                format!(
+                    "{}: {} on the restarted coordinator completed it as {:?}, the transaction is gone but is still the holder of key lock(s) {:?} (lock sets taken by its PREPAREs, vote recorded?: {:?})",
+                    n, how, outcome, left, sets
+                ),
+            );
+        }
+    }
+    /// PREPAREs for `tx` answered by the coordinator's own prepare path: `count` answers with
+    /// different keys; the vote of an answer is recorded with probability 2/3 (else it is still on
+    /// its way when the transaction completes)
+    fn prepares(&mut self, coord: &DistributedTxCoordinator, tx: u64, shards: &[usize], count: usize, tag: &str, rng: &mut Rng) {
+        for i in 0..count {
+            let shard = shards[i % shards.len().max(1)];
+            let key = format!("{}:{}:s{}:k{}", tag, self.names.n(tx), shard, i);
+            let req = PrepareRequest {
+                tx_id: tx,
+                coordinator: "coord".to_string(),
+                operations: vec![Transaction::Put { key: key.clone(), data: vec![7] }],
+                delta_embedding: SparseVector::from_dense(&vec![0.0f32; DIM]),
+                timeout_ms: 5000,
+            };
+            let mut vote = coord.handle_prepare(&req);
+            let yes = matches!(vote, PrepareVote::Yes { .. });
+            self.rep.count("deadline:op:handle_prepare", 1);
+            // recorded = the coordinator accepted a yes vote that carries the handle of this lock set
+            let mut recorded = false;
+            if rng.chance(2, 3) {
+                let mut carries = yes;
+                if yes && rng.chance(1, 10) {
+                    // the shard locked its keys here but cannot prepare: the locks stay until completion
+                    vote = PrepareVote::No { reason: "no".to_string() };
+                    carries = false;
+                }
+                recorded = coord.record_vote(tx, shard, vote).is_ok() && carries;
+            }
+            if yes {
+                self.asked.entry(tx).or_default().push((key, recorded));
+            }
+            self.trace.push(format!("prepare({},s{},{}{})", self.names.n(tx), shard, if yes { "Y" } else { "N" }, if recorded { ",recorded" } else { "" }));
+        }
+    }
+}
+
+fn run_deadline_case(args: &Args, case_seed: u64, long: bool, rep: &mut Report) {
+    let mut rng = Rng::new(hash_combine(case_seed, 0xDEAD_11));
+    let dir = args.scratch_dir("c13d");
+    let path = dir.join("tx.wal");
+    let who = "coord".to_string();
+    let replay = json!({"part": "deadline", "case_seed": case_seed, "long": long});
+    let mut dc = DeadlineCase { names: Names::default(), handed: BTreeMap::new(), done: BTreeMap::new(), asked: BTreeMap::new(), trace: Vec::new(), found: Vec::new(), rep };
+    let yes = |h: u64| PrepareVote::Yes { lock_handle: h, delta: DeltaVector::zero(DIM) };
+    let mut all: Vec<(u64, Vec<usize>)> = Vec::new();
+
+    // ---------------- epoch 0: a log with transactions in every state (no deadline can pass here)
+    {
+        let wal = match TxWal::open(&path) {
+            Ok(w) => w,
+            Err(_) => {
+                dc.rep.inconclusive("deadline part: cannot create the scratch log");
+                return;
+            }
+        };
+        let cfg = DistributedTxConfig { prepare_timeout_ms: 3_600_000, commit_timeout_ms: 3_600_000, ..DistributedTxConfig::default() };
+        let c = DistributedTxCoordinator::new(ConsensusManager::default_config(), cfg).with_wal(wal);
+        // 1-4 transactions in the log, the one whose commit() is cut included
+        let cut_commit = rng.chance(1, 2);
+        let n = if cut_commit { rng.below(4) } else { 1 + rng.below(4) };
+        // 0 decided COMMIT by recover(), 1 prepared, 2 a no vote, 3 collecting, 4 committed, 5 aborted
+        let mut kinds: Vec<usize> = (0..n).map(|_| rng.weighted(&[5, 3, 1, 1, 1, 1])).collect();
+        kinds.sort();
+        let mut handle = 5_000_000u64;
+        let mut recovered = false;
+        let mut begin = |c: &DistributedTxCoordinator, dc: &mut DeadlineCase, all: &mut Vec<(u64, Vec<usize>)>, rng: &mut Rng, votes: usize, no: bool| -> Option<u64> {
+            let parts: Vec<usize> = if rng.bool() { vec![0, 1] } else { vec![0, 1, 2] };
+            let t = c.begin(&who, &parts).ok()?;
+            dc.names.add(t.tx_id);
+            all.push((t.tx_id, parts.clone()));
+            for (i, s) in parts.iter().enumerate() {
+                if i >= votes.min(parts.len()) && votes != usize::MAX {
+                    break;
+                }
+                handle += 1;
+                let v = if no && i == 0 { PrepareVote::No { reason: "no".to_string() } } else { yes(handle) };
+                let _ = c.record_vote(t.tx_id, *s, v);
+            }
+            Some(t.tx_id)
+        };
+        for &k in &kinds {
+            if k != 0 && !recovered {
+                // everything begun so far has all yes votes: recover() decides COMMIT and logs it
+                let _ = c.recover();
+                recovered = true;
+            }
+            match k {
+                0 | 1 => {
+                    begin(&c, &mut dc, &mut all, &mut rng, usize::MAX, false);
+                }
+                2 => {
+                    begin(&c, &mut dc, &mut all, &mut rng, usize::MAX, true);
+                }
+                3 => {
+                    begin(&c, &mut dc, &mut all, &mut rng, 1, false);
+                }
+                4 => {
+                    if let Some(t) = begin(&c, &mut dc, &mut all, &mut rng, usize::MAX, false) {
+                        let _ = c.commit(t);
+                    }
+                }
+                _ => {
+                    if let Some(t) = begin(&c, &mut dc, &mut all, &mut rng, usize::MAX, false) {
+                        let _ = c.abort(t, "client");
+                    }
+                }
+            }
+        }
+        if !recovered {
+            let _ = c.recover();
+        }
+        dc.trace.push(format!("epoch0(kinds {:?}{})", kinds, if cut_commit { ", commit() cut behind its decision record" } else { "" }));
+        if cut_commit {
+            // a crash between the two records of commit(): the decision is logged, the completion is not
+            if let Some(t) = begin(&c, &mut dc, &mut all, &mut rng, usize::MAX, false) {
+                let before = file_len(&path);
+                if c.commit(t).is_ok() {
+                    drop(c);
+                    let bytes = std::fs::read(&path).unwrap_or_default();
+                    let (recs, _) = decode_run(&bytes, before, bytes.len());
+                    if let Some(r) = recs.iter().find(|r| matches!(&r.entry, TxWalEntry::TxComplete { tx_id, .. } if *tx_id == t)) {
+                        let torn = if rng.chance(1, 3) { 1 + rng.below((r.end - r.start - 1).max(1)) } else { 0 };
+                        let cut = (r.start + torn).min(r.end - 1);
+                        if std::fs::write(&path, &bytes[..cut]).is_err() {
+                            dc.rep.inconclusive("scratch write failed");
+                            return;
+                        }
+                        dc.rep.count("deadline:logs-cut-inside-commit()", 1);
+                    }
+                }
+            }
+        }
+    }
+
+    // ---------------- epoch 1: the restarted coordinator
+    let t_ms = *rng.pick(&[0u64, 0, 20]);
+    let cto = if rng.chance(1, 4) { DistributedTxConfig::default().commit_timeout_ms } else { 0 };
+    let restart = |dc: &mut DeadlineCase, t_ms: u64| -> Option<DistributedTxCoordinator> {
+        let wal = match TxWal::open(&path) {
+            Ok(w) => w,
+            Err(e) => {
+                dc.push("wal-open-failed".into(), format!("TxWal::open failed: {}", e));
+                return None;
+            }
+        };
+        let cfg = DistributedTxConfig { prepare_timeout_ms: t_ms, commit_timeout_ms: cto, ..DistributedTxConfig::default() };
+        let c = DistributedTxCoordinator::new(ConsensusManager::default_config(), cfg).with_wal(wal);
+        if let Err(e) = c.recover_from_wal() {
+            dc.push("recovery-error".into(), format!("recover_from_wal failed: {}", e));
+            return None;
+        }
+        dc.trace.push("RESTART recover_from_wal".into());
+        Some(c)
+    };
+    let finish = |dc: DeadlineCase, nontrivial: bool| {
+        let DeadlineCase { trace, found, rep, .. } = dc;
+        rep.eval(hash_combine(hash_str(&trace.join(" ")), long as u64), nontrivial);
+        for f in found {
+            rep.violation(f.sig, format!("{} [deadline part, {} wait]", f.detail, if long { "5.1 s" } else { "short" }), replay.clone());
+        }
+    };
+    let Some(c) = restart(&mut dc, t_ms) else {
+        finish(dc, false);
+        return;
+    };
+    dc.rep.count("deadline:cases", 1);
+    dc.rep.count(if long { "deadline:cases-with-5.1s-wait" } else { "deadline:cases-with-short-wait" }, 1);
+    if rng.chance(2, 3) {
+        let _ = c.recover();
+        dc.trace.push("recover".into());
+    }
+    dc.note_decisions(&c);
+    // PREPAREs that arrive again for restored transactions (votes refused, lock sets stay)
+    for (tx, parts) in all.clone() {
+        if c.get(tx).is_some() && rng.chance(1, 2) {
+            let mut sh = parts.clone();
+            rng.shuffle(&mut sh);
+            let count = 1 + rng.below(3);
+            dc.prepares(&c, tx, &sh, count, "r", &mut rng);
+        }
+    }
+    // further transactions on the restarted coordinator; every shard answers its PREPARE with its own
+    // keys, some answer twice
+    let m = rng.below(3);
+    for _ in 0..m {
+        let parts: Vec<usize> = if rng.bool() { vec![0, 1] } else { vec![0, 1, 2] };
+        let Ok(t) = c.begin(&who, &parts) else { continue };
+        dc.names.add(t.tx_id);
+        all.push((t.tx_id, parts.clone()));
+        dc.trace.push(format!("begin({},{:?})", dc.names.n(t.tx_id), parts));
+        let mut sh = parts.clone();
+        if rng.bool() {
+            sh.reverse();
+        }
+        let count = parts.len() + rng.below(3);
+        dc.prepares(&c, t.tx_id, &sh, count, "n", &mut rng);
+        dc.rep.count("deadline:further-transactions", 1);
+    }
+    if rng.chance(3, 4) {
+        let _ = c.recover();
+        dc.trace.push("recover".into());
+    }
+    dc.note_decisions(&c);
+
+    // ---------------- the deadlines pass (what the clock does decides only which states are met)
+    let wait_ms = if long { RESTORED_DEADLINE_MS + 100 } else { t_ms + 2 + rng.below(3) as u64 };
+    std::thread::sleep(Duration::from_millis(wait_ms));
+    dc.trace.push(format!("WAIT({}ms)", wait_ms));
+
+    // ---------------- recovery calls, sweeps and completion calls in any order
+    let ops = 3 + rng.below(6);
+    for _ in 0..ops {
+        let tx = all[rng.below(all.len())].0;
+        let n = dc.names.n(tx);
+        match rng.weighted(&[5, 4, 2, 2, 1, 1, 2, 1]) {
+            0 => {
+                let (due, due_restored) = dc.decided_past_deadline(&c, TxPhase::Committing);
+                dc.rep.count("deadline:recover()-met-COMMIT-decided-tx-past-its-deadline", due);
+                dc.rep.count("deadline:recover()-met-restored-COMMIT-decided-tx-past-its-5s-deadline", due_restored);
+                let (due_a, _) = dc.decided_past_deadline(&c, TxPhase::Aborting);
+                dc.rep.count("deadline:recover()-met-ABORT-decided-tx-past-its-deadline", due_a);
+                let _ = c.recover();
+                dc.trace.push("recover".into());
+                dc.note_decisions(&c);
+            }
+            1 => {
+                let (due, _) = dc.decided_past_deadline(&c, TxPhase::Committing);
+                dc.rep.count("deadline:sweep-met-COMMIT-decided-tx-past-its-deadline", due);
+                let swept = c.cleanup_timeouts();
+                let queued = c.take_pending_aborts();
+                dc.trace.push(format!("sweep->{:?}", swept.iter().map(|t| dc.names.n(*t)).collect::<Vec<_>>()));
+                for t in swept {
+                    dc.completed(&c, t, TxOutcome::Aborted, "cleanup_timeouts()");
+                }
+                for (t, _, _) in queued {
+                    let committed = dc.done.get(&t).map(|d| d.0) == Some(TxOutcome::Committed);
+                    if committed || (dc.handed.get(&t) == Some(&TxPhase::Committing) && !dc.done.contains_key(&t)) {
+                        let n = dc.names.n(t);
+                        dc.push("handed-out-decision-reversed:COMMIT-then-abort-broadcast-queued".into(), format!("{}: COMMIT was handed out for it by the restarted coordinator; afterwards an abort broadcast is queued for it", n));
+                    }
+                }
+            }
+            2 => {
+                let ok = c.abort(tx, "late abort").is_ok();
+                dc.trace.push(format!("abort({})->{}", n, ok));
+                if ok {
+                    dc.completed(&c, tx, TxOutcome::Aborted, "abort()");
+                }
+            }
+            3 => {
+                let ok = c.complete_abort(tx).is_ok();
+                dc.trace.push(format!("complete_abort({})->{}", n, ok));
+                if ok {
+                    dc.completed(&c, tx, TxOutcome::Aborted, "complete_abort()");
+                }
+            }
+            4 => {
+                let ok = c.commit(tx).is_ok();
+                dc.trace.push(format!("commit({})->{}", n, ok));
+                if ok {
+                    dc.completed(&c, tx, TxOutcome::Committed, "commit()");
+                }
+            }
+            5 => {
+                let ok = c.complete_commit(tx).is_ok();
+                dc.trace.push(format!("complete_commit({})->{}", n, ok));
+                if ok {
+                    dc.completed(&c, tx, TxOutcome::Committed, "complete_commit()");
+                }
+            }
+            6 => {
+                dc.trace.push("decisions".into());
+                dc.note_decisions(&c);
+            }
+            _ => {
+                if let Err(e) = c.recover_from_wal() {
+                    dc.push("recovery-error".into(), format!("recover_from_wal on the running coordinator failed: {}", e));
+                } else {
+                    dc.trace.push("recover_from_wal".into());
+                }
+            }
+        }
+    }
+    dc.note_decisions(&c);
+
+    // ---------------- "can be driven to completion": every decided transaction completes as decided
+    // (a third is left for the next restart), the others are completed one way or the other
+    let mut left_decided: Vec<(u64, TxPhase)> = Vec::new();
+    for (tx, _) in all.clone() {
+        if dc.done.contains_key(&tx) {
+            continue;
+        }
+        let n = dc.names.n(tx);
+        match dc.handed.get(&tx).copied() {
+            Some(h) => {
+                if rng.chance(1, 3) {
+                    left_decided.push((tx, h));
+                    continue;
+                }
+                let (res, how, o) = if h == TxPhase::Committing {
+                    (c.complete_commit(tx), "complete_commit()", TxOutcome::Committed)
+                } else {
+                    (c.complete_abort(tx), "complete_abort()", TxOutcome::Aborted)
+                };
+                dc.trace.push(format!("{}({})->{}", how.trim_end_matches("()"), n, res.is_ok()));
+                match res {
+                    Ok(()) => {
+                        dc.rep.count("deadline:decided-tx-driven-to-completion", 1);
+                        dc.completed(&c, tx, o, how);
+                    }
+                    Err(e) => dc.push(
+                        format!("decided-tx-not-completable:{}", decision_name(h)),
+                        format!("{}: the restarted coordinator handed {} out for it, but {} fails: {} (now: {:?})", n, decision_name(h), how, e, c.get(tx).map(|t| t.phase)),
+                    ),
+                }
+            }
+            None => match c.get(tx).map(|t| t.phase) {
+                Some(TxPhase::Prepared) if rng.bool() => {
+                    if c.commit(tx).is_ok() {
+                        dc.trace.push(format!("commit({})->true", n));
+                        dc.completed(&c, tx, TxOutcome::Committed, "commit()");
+                    }
+                }
+                Some(_) => {
+                    if c.abort(tx, "client").is_ok() {
+                        dc.trace.push(format!("abort({})->true", n));
+                        dc.completed(&c, tx, TxOutcome::Aborted, "abort()");
+                    }
+                }
+                None => {}
+            },
+        }
+    }
+    drop(c);
+
+    // ---------------- the next crash and restart: decisions and completions of epoch 1 stay
+    let Some(c2) = restart(&mut dc, t_ms) else {
+        let nt = !dc.handed.is_empty();
+        finish(dc, nt);
+        return;
+    };
+    if rng.bool() {
+        let _ = c2.recover();
+        dc.trace.push("recover".into());
+    }
+    let d2: HashMap<u64, TxPhase> = c2.get_pending_decisions().into_iter().collect();
+    for (tx, h) in left_decided {
+        let n = dc.names.n(tx);
+        let now = c2.get(tx).map(|t| t.phase);
+        dc.rep.count("deadline:checked:decided-tx-after-next-restart", 1);
+        if h == TxPhase::Committing {
+            if now != Some(TxPhase::Committing) || d2.get(&tx) != Some(&TxPhase::Committing) {
+                dc.push(
+                    format!("handed-out-decision-reversed:COMMIT-then-{}-after-next-restart", now.map(|p| format!("{:?}", p)).unwrap_or_else(|| "forgotten".into())),
+                    format!("{}: the restarted coordinator handed COMMIT out for it (the decision is logged before it is handed out) and did not complete it; after the next restart it is {:?}", n, now),
+                );
+            } else if let Err(e) = c2.complete_commit(tx) {
+                dc.push("decided-tx-not-completable:COMMIT".into(), format!("{}: COMMIT handed out before the last restart, complete_commit() after it fails: {}", n, e));
+            } else {
+                dc.rep.count("deadline:decided-tx-driven-to-completion", 1);
+            }
+        } else if now == Some(TxPhase::Committing) || d2.get(&tx) == Some(&TxPhase::Committing) {
+            dc.push("handed-out-decision-reversed:ABORT-then-Committing-after-next-restart".into(), format!("{}: the restarted coordinator handed ABORT out for it; after the next restart (and recover()) it is Committing", n));
+        }
+    }
+    for (tx, (o, how)) in dc.done.clone() {
+        let n = dc.names.n(tx);
+        dc.rep.count("deadline:checked:completed-tx-after-next-restart", 1);
+        if let Some(t) = c2.get(tx) {
+            dc.push(
+                format!("completed-tx-pending-again:{:?}-as-{:?}", o, t.phase),
+                format!("{} was completed as {:?} by the restarted coordinator ({} returned it); after the next restart it is pending in phase {:?}", n, o, how, t.phase),
+            );
+        }
+        let reversed = match o {
+            TxOutcome::Committed => c2.abort(tx, "late abort").is_ok() || c2.complete_abort(tx).is_ok(),
+            _ => c2.commit(tx).is_ok() || c2.complete_commit(tx).is_ok(),
+        };
+        if reversed {
+            dc.push(
+                format!("{}:after-next-restart", if o == TxOutcome::Committed { "logged-commit-reversed:abort-accepted" } else { "logged-abort-reversed:commit-accepted" }),
+                format!("{} was completed as {:?} by the restarted coordinator ({}); after the next restart the opposite completion call succeeded", n, o, how),
+            );
+        }
+    }
+    let nt = !dc.handed.is_empty();
+    finish(dc, nt);
+}
+
 /// `c13 witness`: the two defects found on the pinned tree as hand-written minimal sequences
 /// against the real code (prints what happens; no oracle involved).
 fn witness(args: &Args) {
@@ -1941,6 +2522,26 @@ fn child_ack(dir: &str, seed: u64) {
     }
 }
 
+/// non-vacuity of the deadline part
+fn deadline_floors(args: &Args) -> Vec<(&'static str, u64)> {
+    let _ = args;
+    vec![
+        ("deadline:cases", 300),
+        ("deadline:cases-with-5.1s-wait", 8),
+        ("deadline:decision-handed-out:COMMIT", 300),
+        ("deadline:decision-handed-out:ABORT", 30),
+        // a recovery call / a sweep that meets a COMMIT-decided transaction whose deadline is over
+        ("deadline:recover()-met-COMMIT-decided-tx-past-its-deadline", 100),
+        ("deadline:recover()-met-restored-COMMIT-decided-tx-past-its-5s-deadline", 5),
+        ("deadline:sweep-met-COMMIT-decided-tx-past-its-deadline", 100),
+        ("deadline:decided-tx-driven-to-completion", 200),
+        ("deadline:checked:decided-tx-after-next-restart", 50),
+        // completions of transactions that hold several lock sets, one of them without a recorded vote
+        ("deadline:checked:no-locks-after-completion-of-tx-with-several-lock-sets", 200),
+        ("deadline:checked:completed-tx-had-earlier-lock-set-without-recorded-vote", 100),
+    ]
+}
+
 fn main() {
     let args = Args::parse();
     if args.rest.first().map(|s| s.as_str()) == Some("child-ack") {
@@ -1954,6 +2555,8 @@ fn main() {
         return;
     }
     let started = Instant::now();
+    // `--only-deadline 1`: run only the deadline part (with the floors of that part)
+    let only_deadline = args.extra_u64("only-deadline", 0) != 0;
     JUDGE_COMPLETE_CALLS.store(args.extra_u64("judge-complete-calls", 1) != 0, std::sync::atomic::Ordering::Relaxed);
     quiet_panics();
     let mut total = Report::new();
@@ -1963,17 +2566,36 @@ fn main() {
         let v: Value = serde_json::from_str(&std::fs::read_to_string(p).expect("replay file")).expect("json");
         let rp = if v.get("replay").is_some() { &v["replay"] } else { &v };
         let seed = rp["case_seed"].as_u64().expect("case_seed");
-        run_case(&args, seed, &mut total);
+        if rp["part"].as_str() == Some("deadline") {
+            run_deadline_case(&args, seed, rp["long"].as_bool().unwrap_or(false), &mut total);
+        } else {
+            run_case(&args, seed, &mut total);
+        }
     } else {
         let n = args.by_tier(2_500u64, 60_000u64);
         let a = args.clone();
-        let rep = par_cases(args.threads, args.seed, n, args.budget(60, 780), move |_i, s, r| run_case(&a, s, r));
+        // the deadline part mostly sleeps (its cases wait for deadlines to pass): it runs beside the
+        // main part on its own threads; the cases with the 5.1 s wait come first, all at once
+        let (n_long, n_short) = (args.by_tier(32u64, 480u64), args.by_tier(1_600u64, 60_000u64));
+        let d_threads = args.by_tier(40usize, 56usize);
+        let d_budget = args.budget(45, 600);
+        let d_seed = hash_combine(args.seed, 0xD11E);
+        let a2 = args.clone();
+        let (rep, drep) = std::thread::scope(|sc| {
+            let h = sc.spawn(move || par_cases(d_threads, d_seed, n_long + n_short, d_budget, move |i, s, r| run_deadline_case(&a2, s, i < n_long, r)));
+            let rep = if only_deadline { Report::new() } else { par_cases(args.threads, args.seed, n, args.budget(60, 780), move |_i, s, r| run_case(&a, s, r)) };
+            (rep, h.join())
+        });
         total.merge(rep);
+        match drep {
+            Ok(r) => total.merge(r),
+            Err(_) => total.inconclusive("the deadline part did not finish (harness thread panicked)"),
+        }
     }
 
     let meta = Meta {
         property: "C13",
-        rule: "one evaluation = one restart of the real coordinator from a log cut at one byte (every byte length of what each crashed epoch wrote, on a copy; plus the restarts of the chain itself, which continue with new transactions and up to two more crashes). The obligations of a restart come from the harness's own decoding of the durable prefix, from the coordinator's answers to the votes (collected = a vote of every participant accepted) and from the outcomes the coordinator announced before the crash point (commit/abort Ok, timeouts reported by the sweeper). Distinct by the hash of the durable record sequence (transaction indices, not ids) and the offset of the cut inside the torn record; non-trivial if the durable prefix holds at least one transaction that is past vote collection (prepared / committing / aborting / completed), i.e. there is something to preserve. Every restart script also re-delivers messages (votes for completed / forgotten transactions, PREPAREs for restored ones), sweeps before and after the completion calls with all configurable timeouts at 0 ms, tries the opposite completion on decisions it handed out, and ends with a look at the records it appended to the log and at the lock table.",
+        rule: "one evaluation = one restart of the real coordinator from a log cut at one byte (every byte length of what each crashed epoch wrote, on a copy; plus the restarts of the chain itself, which continue with new transactions and up to two more crashes). The obligations of a restart come from the harness's own decoding of the durable prefix, from the coordinator's answers to the votes (collected = a vote of every participant accepted) and from the outcomes the coordinator announced before the crash point (commit/abort Ok, timeouts reported by the sweeper). Distinct by the hash of the durable record sequence (transaction indices, not ids) and the offset of the cut inside the torn record; non-trivial if the durable prefix holds at least one transaction that is past vote collection (prepared / committing / aborting / completed), i.e. there is something to preserve. Every restart script also re-delivers messages (votes for completed / forgotten transactions, PREPAREs for restored ones), sweeps before and after the completion calls with all configurable timeouts at 0 ms, tries the opposite completion on decisions it handed out, and ends with a look at the records it appended to the log and at the lock table (key holders, not only the per-transaction index). Deadline part: one evaluation = one restarted coordinator that handed decisions out, answered several PREPAREs per transaction, then saw the deadlines pass (short: the configured 0/20 ms of its own transactions; long: the 5 s of restored ones) followed by a seeded sequence of recovery calls, sweeps and completion calls, and one more restart; distinct by the hash of the call trace, non-trivial if a decision was handed out.",
         assumptions: vec![
             "a crash is a process crash: the file is a prefix of what was written; every append is fsynced before the call returns, so each record boundary is an acknowledgement point".into(),
             "a vote counts as collected iff the live coordinator accepted it (record_vote returned Ok); the coordinator logs votes before validating them, so the log also holds rejected votes".into(),
@@ -1985,12 +2607,15 @@ fn main() {
             "messages delivered again after a restart: every restart script sends votes for transactions that are not pending (completed or forgotten; synthetic lock handles, no locks taken) and PREPAREs for restored ones (through the coordinator's handle_prepare, which takes key locks under a fresh handle; the vote is refused). Only what the statement names is judged on them: a completed outcome stays (no abort broadcast for a committed transaction, no completion record of the opposite outcome appended to the log), and a transaction the coordinator then completes holds no key lock afterwards. What such a vote does for a forgotten transaction is not judged".into(),
             "a decision get_pending_decisions() of the restarted coordinator handed out (COMMIT for Committing, ABORT for Aborting) is taken as an announced outcome, like a completion a call returned: the sweeper and the opposite completion calls must leave it alone (signatures handed-out-decision-reversed:*). This is the reading under which the statement's 'never afterwards aborted or timed out' reaches a transaction whose COMMIT is logged as a phase change but whose completion record is missing; a timeout of a restored transaction that is still undecided (Prepared) remains a legitimate completion".into(),
             "all coordinators of a case share one configuration: prepare timeout 0 ms, commit timeout 0 ms in three quarters of the cases and the default (10 s) in the rest; the harness sleeps 1.1 ms before a sweep of a restarted coordinator that has pending transactions so that a 0 ms deadline is over (restored transactions get 5 s from the code, which only the late sweeps wait out; in the thorough tier some late sweeps wait out the default commit timeout as well)".into(),
+            "deadline part: a decision handed out by get_pending_decisions() of a restarted coordinator is final for restored and for further transactions alike (same reading as above; the code logs the decision before it hands it out), so the transaction must stay completable as decided through every later recover()/sweep, however long its completion takes, and must come back in the decided phase after the next restart. Whether a deadline has passed is read from the transaction's own is_timed_out() and only counted (floors), never judged; a case that is descheduled merely meets other states. A coordinator key lock counts as held by a transaction if lock_holder(key) names it; PREPAREs are only sent for transactions that are pending, each with its own key, and a vote that is not recorded models an answer still on its way when the transaction completes".into(),
             "violations observed on a log that contains a torn record followed by appended records are attributed to that defect (signature torn-tail-then-append:*) unless the same signature also arises when the restart is judged against the log cut at the torn record (what a reader that cannot skip it sees)".into(),
         ],
         floors: if args.replay.is_some() {
             vec![]
+        } else if only_deadline {
+            deadline_floors(&args)
         } else {
-            vec![
+            let mut fl = vec![
                 ("crash_images", 20_000),
                 ("images_inside_a_record", 10_000),
                 ("images_at_record_boundary", 1_000),
@@ -2037,7 +2662,10 @@ fn main() {
                 ("decided_tx_pending_at_sweep_with_0ms_deadlines_over", FLOOR_DECIDED_AT_SWEEP),
                 ("cases_with_commit_timeout_0", 200),
                 ("cases_with_default_commit_timeout", 50),
-            ]
+                ("redelivery:restored-tx-holds-several-fresh-lock-sets", 5_000),
+            ];
+            fl.extend(deadline_floors(&args));
+            fl
         },
         exhaustive: false,
     };
